@@ -42,6 +42,9 @@ structure WellTyped (P : Program) : Prop where
 
 /-! ## relations carried through the induction -/
 
+/-- plain programs: every resolved expression is evaluated in the empty fork assignment -/
+abbrev Fs0 : ForkAssign → Prop := fun f => f = []
+
 /-- den's argument record against the resolved inputs of a node -/
 def ArgsRel (st : StructTable) (F : Nat) (ρ : Store) (pins : List Param) (args : J) (cins : RBMap) : Prop :=
   ∃ g : Param → RExp,
@@ -99,7 +102,7 @@ include hst hF
 
 /-- the bindings of a plain call: den's argument record = run-time evaluation of the resolved inputs -/
 theorem args_step (insOf : String → List Param) (env : Env) (self sib : RBMap)
-    (hrel : EnvRel st F ρ env self sib) (c : Call)
+    (hrel : EnvRel st F ρ Fs0 env self sib) (c : Call)
     (hc : CallOk st insOf env.selfTy env.callTy c) :
     ArgsRel st F ρ (insOf c.callee) (mkArgs st F (argVals st env (insOf c.callee) c) none)
       (resolveBinds st self sib (insOf c.callee) c) := by
@@ -119,7 +122,7 @@ theorem args_step (insOf : String → List Param) (env : Env) (self sib : RBMap)
     | none => simp [narrow_null hF, evalRT]
     | some b =>
       simp only [Prod.mk.injEq, true_and]
-      have key := (eval_resolveExp st hst F hF ρ env self sib hrel b.exp p.ty (hb p hp b hfb)).1
+      have key := (eval_resolveExp st hst F hF ρ Fs0 env self sib hrel [] rfl b.exp p.ty (hb p hp b hfb)).1
       cases b.split <;> exact key
   · intro p hp
     show HasTyR st p.ty (match c.binds.find? (fun b => b.param == p.name) with
@@ -127,12 +130,12 @@ theorem args_step (insOf : String → List Param) (env : Env) (self sib : RBMap)
       | none => .lit .null)
     cases hfb : c.binds.find? (fun b => b.param == p.name) with
     | none => exact HasTyR_null st _
-    | some b => exact (eval_resolveExp st hst F hF ρ env self sib hrel b.exp p.ty (hb p hp b hfb)).2
+    | some b => exact (eval_resolveExp st hst F hF ρ Fs0 env self sib hrel [] rfl b.exp p.ty (hb p hp b hfb)).2
 
 omit hst hF in
 /-- entering a pipeline: its environment is related to the resolved inputs of its node -/
 theorem envRel_init (pins : List Param) (args : J) (cins : RBMap) (h : ArgsRel st F ρ pins args cins) :
-    EnvRel st F ρ ⟨pins, args, []⟩ cins [] := by
+    EnvRel st F ρ Fs0 ⟨pins, args, []⟩ cins [] := by
   obtain ⟨g, hc, ha, hty⟩ := h
   refine ⟨?_, ?_, ?_⟩
   · intro p
@@ -143,7 +146,7 @@ theorem envRel_init (pins : List Param) (args : J) (cins : RBMap) (h : ArgsRel s
     | none => simp [HasTyR_null, evalRT]
     | some q =>
       simp only [Option.map_some, Option.getD_some]
-      exact ⟨hty q (List.mem_of_find?_eq_some hf), trivial⟩
+      exact ⟨hty q (List.mem_of_find?_eq_some hf), fun f hf0 => by subst hf0; rfl⟩
   · intro c
     simp [Env.callTy, Env.callVal, σexp, HasTyR_null, evalRT]
   · intro c
@@ -151,10 +154,10 @@ theorem envRel_init (pins : List Param) (args : J) (cins : RBMap) (h : ArgsRel s
 
 omit hst hF in
 /-- one more call in the environment -/
-theorem envRel_step (env : Env) (self sib : RBMap) (hrel : EnvRel st F ρ env self sib)
+theorem envRel_step (env : Env) (self sib : RBMap) (hrel : EnvRel st F ρ Fs0 env self sib)
     (id callee : String) (v : J) (rb : RB)
     (hv : v = evalRT st F ρ [] ⟨callee, 0, 0⟩ rb.exp) (hty : HasTyR st ⟨callee, 0, 0⟩ rb.exp) :
-    EnvRel st F ρ { env with calls := env.calls ++ [(id, ⟨callee, 0, 0⟩, v)] } self (sib ++ [(id, rb)]) := by
+    EnvRel st F ρ Fs0 { env with calls := env.calls ++ [(id, ⟨callee, 0, 0⟩, v)] } self (sib ++ [(id, rb)]) := by
   refine ⟨hrel.hself, ?_, ?_⟩
   · intro c
     have hd := hrel.hdom c
@@ -210,9 +213,9 @@ theorem refine_calls (insOf : String → List Param) (run : Runner)
     (hrun : ∀ callee path args cins, ArgsRel st F ρ (insOf callee) args cins →
       Good st F ρ callee (run callee path [] args) (node callee path cins)) :
     ∀ (cs : List Call) (env : Env) (sib : RBMap) (acc : List Inst) (sacc : List SNode),
-      EnvRel st F ρ env self sib → env.selfTy = sT → CallsOk st insOf sT (typesOf env) cs →
+      EnvRel st F ρ Fs0 env self sib → env.selfTy = sT → CallsOk st insOf sT (typesOf env) cs →
       acc = sacc.map (toInst st F ρ) →
-      EnvRel st F ρ (evalCalls st F insOf run path [] cs env acc).1 self
+      EnvRel st F ρ Fs0 (evalCalls st F insOf run path [] cs env acc).1 self
           (staticCalls st insOf node path self cs sib sacc).1 ∧
       (evalCalls st F insOf run path [] cs env acc).1.selfTys = env.selfTys ∧
       typesOf (evalCalls st F insOf run path [] cs env acc).1 = typesOf env ++ callTypes cs ∧
@@ -233,7 +236,7 @@ theorem refine_calls (insOf : String → List Param) (run : Runner)
     have hargs := args_step st hst F hF ρ insOf env self sib hrel c hc'
     have hgood := hrun c.callee (path ++ [c.id]) _ _ hargs
     obtain ⟨g1, g2, g3⟩ := hgood
-    simp only [evalCalls, staticCalls]
+    simp only [evalCalls, staticCalls, hc.1, Bool.false_eq_true, if_false]
     rw [evalCall_plain st F insOf run path [] env c hc.1 hc.2.1]
     simp only
     have hrel' := envRel_step st F ρ env self sib hrel c.id c.callee _ _ g1 g2
@@ -318,7 +321,7 @@ theorem refine_callable :
           | some e =>
             have hty := hret p hp e he
             rw [← hsT, ← hcT] at hty
-            exact eval_resolveExp P.table hw.structs F hF ρ R.1 cins S.1 hrel e p.ty hty
+            exact eval_resolveExp P.table hw.structs F hF ρ Fs0 R.1 cins S.1 hrel [] rfl e p.ty hty
         have c2 : ((0 : Nat) == 0 && (0 : Nat) != 0) = false := by decide
         refine ⟨?_, ?_, hinst⟩
         · simp only [evalRT, c2, Bool.false_eq_true, if_false, htab, J.obj.injEq]
@@ -347,7 +350,7 @@ theorem twoPhase_eq_den_F :
         (mkArgs P.table F (argVals P.table ⟨[], .null, []⟩ (P.insOf P.top.callee) P.top) none)
       = ((evalRT P.table F ρ [] ⟨P.top.callee, 0, 0⟩ (staticProgram P nm).1.exp),
          (staticProgram P nm).2.map (toInst P.table F ρ)) := by
-  have henv : EnvRel P.table F ρ ⟨[], .null, []⟩ [] [] := by
+  have henv : EnvRel P.table F ρ Fs0 ⟨[], .null, []⟩ [] [] := by
     refine ⟨?_, ?_, ?_⟩
     · intro p; simp [Env.selfTy, σexp, HasTyR_null, evalRT, J.field]
     · intro c; simp [Env.callTy, Env.callVal, σexp, HasTyR_null, evalRT]
